@@ -60,11 +60,16 @@ func verifCfgText(c *Config) string {
 // down has still filled in what decoded before the error is returned
 func verifYAMLUnmarshal(data []byte, out any) error {
 	c := out.(*Config)
+	// (the decoder builds fresh values: nothing is shared with the script the harness compares against)
 	if verifCfgNext.cfg.Services != nil {
-		c.Services = verifCfgNext.cfg.Services
+		c.Services = make([]ServiceConfig, len(verifCfgNext.cfg.Services))
+		for i, sc := range verifCfgNext.cfg.Services {
+			c.Services[i].Listeners = append([]ListenerConfig(nil), sc.Listeners...)
+			c.Services[i].Keys = append([]KeyConfig(nil), sc.Keys...)
+		}
 	}
 	if verifCfgNext.cfg.Keys != nil {
-		c.Keys = verifCfgNext.cfg.Keys
+		c.Keys = append([]LegacyKeyServiceConfig(nil), verifCfgNext.cfg.Keys...)
 	}
 	if verifCfgNext.parseErr {
 		return errors.New("injected parse fault")
@@ -573,7 +578,11 @@ func VH_C11_retain() {
 		verifSvc([]verifLn{verifL2T}, verifKC("other", verifKeys[1])),
 	}}
 	after := []verifLn{verifL1T, verifL1U, verifL2T}
-	switch verifChoice("new-config-shape", 3) {
+	switch verifChoice("new-config-shape", 4) {
+	case 3:
+		// the other service keeps its address but is left without any key: the address stays
+		// bound (connections to it are absorbed as probes, not refused)
+		g2.Services[1].Keys = nil
 	case 1:
 		// the new configuration lists the retained key a second time, under another id
 		g2.Services[0].Keys = append(g2.Services[0].Keys, verifKC("new-alias", verifKeys[0]))
@@ -1023,4 +1032,34 @@ func VH_C10_sections_come_and_go() {
 	verifAssert("C10.sections.stop-ok", s.Stop() == nil)
 	verifQuiesce()
 	verifReach("C10.sections.done", true)
+}
+
+// C09: unusual but valid configuration shapes: a service that lists keys but no listeners (it
+// serves nowhere and must not shift anything), and secrets that begin or end with white space
+// (the secret is the configured string, byte for byte)
+func VH_C09_config_shapes() {
+	sm := &verifSvcMetrics{}
+	s := verifNewServer(sm)
+	padded := verifK{"chacha20-ietf-poly1305", " s1 "}
+	keys := []verifK{verifKeys[0], verifKeys[1], verifKeys[2], padded}
+	idle := ServiceConfig{Keys: []KeyConfig{verifKC("idle-1", verifKeys[2])}} // no listeners
+	a := verifSvc([]verifLn{verifL1T, verifL1U}, verifKC("a-1", verifKeys[0]))
+	b := verifSvc([]verifLn{verifL2T, verifL2U}, verifKC("b-1", verifKeys[1]))
+	if verifFlag("a-secret-with-white-space") {
+		a.Keys = []KeyConfig{verifKC("a-padded", padded)}
+	}
+	var cfg Config
+	switch verifChoice("listenerless-service-at", 3) {
+	case 0:
+		cfg.Services = []ServiceConfig{idle, a, b}
+	case 1:
+		cfg.Services = []ServiceConfig{a, idle, b}
+	case 2:
+		cfg.Services = []ServiceConfig{a, b}
+	}
+	verifAssert("C09.shapes.load-ok", verifLoadCfg(s, &verifCfgStep{cfg: cfg}) == nil)
+	verifCheckState("C09.shapes", sm, &cfg, []verifLn{verifL1T, verifL1U, verifL2T, verifL2U, verifL3T}, keys)
+	verifAssert("C09.shapes.stop-ok", s.Stop() == nil)
+	verifQuiesce()
+	verifReach("C09.shapes.done", true)
 }
